@@ -57,6 +57,6 @@ Definition q_measure (s : qstate) : nat := (2 * length (q_todo s) + length (q_qu
    then both run in turn until nothing moves any more.  With the values of the source. *)
 Fixpoint q_alternate (n : nat) : list qmove :=
   match n with O => [] | S k => QConsume :: QProduce :: q_alternate k end.
-Definition q_late_schedule (n : nat) : list qmove := repeat QProduce n ++ q_alternate (2 * n).
+Definition q_late_schedule (n : nat) : list qmove := repeat QProduce n ++ q_alternate n.
 Definition queue_late (chunks : list (list byte)) : qstate :=
   qrun queue_capacity add_blocks (q_late_schedule (length chunks)) (q_init chunks).
